@@ -1,6 +1,7 @@
 //! Correspondence harness: runs the real crate (hooks on) on generated inputs
 //! and prints JSON that the ./check driver turns into Coq case files.
 mod invhash;
+mod tracker;
 mod util;
 
 fn main() {
@@ -14,6 +15,9 @@ fn main() {
         "invhash-vectors" => invhash::vectors(rest),
         "invhash-search" => invhash::search(rest),
         "invhash-replay" => invhash::replay(rest),
+        "tracker-cases" => tracker::cases(rest),
+        "tracker-search" => tracker::search(rest),
+        "tracker-replay" => tracker::replay(rest),
         other => {
             eprintln!("unknown subcommand {}", other);
             std::process::exit(2);
